@@ -8,8 +8,8 @@ import (
 
 func init() {
 	reg("C39", Meta{
-		Technique:   "operand-shape rule on SSA: loop-controlling conditions of the whole-vector predicate derive from the logical length field, never from len() of the backing slice",
-		Explanation: "C39 (bit vectors), one structural clause: (Y1) in every bool-returning BitVector method that loops (the all-bits-set test Equals), no loop-controlling branch condition depends on len(bv.b) — the backing slice may be longer than needed — and at least one depends on bv.len. Also (G1) NewFromBytes refuses l<=0 and len(b)*8<l before constructing. Not decided: the boolean-array value semantics of Get/Set/SetBytes/encode-decode.",
+		Technique:   "operand-shape rule on SSA: loop-controlling conditions of the whole-vector predicate derive from the logical length field, never from len() of the backing slice; sibling agreement of the bit-addressing expressions (byte i/8, mask 1<<(i%8)); who-may-write and must-guard rules for the backing bytes; constant-polarity and guard rules for Set/Unset/SetBytes/UnsetBytes; raw-compare (padding) rule",
+		Explanation: "C39 (bit vectors), one structural clause: (Y1) in every bool-returning BitVector method that loops (the all-bits-set test Equals), no loop-controlling branch condition depends on len(bv.b) — the backing slice may be longer than needed — and at least one depends on bv.len. Also (G1) NewFromBytes refuses l<=0 and len(b)*8<l before constructing; (A1) one bit numbering: wherever a method combines a byte with a single-bit mask, the byte is element i/8 and the mask 1<<(i%8) of the same i (Get, set, SetBytes, UnsetBytes agree); (W1) the only store into the backing bytes is set's flip `b[i/8] ^= mask`, reached only when Get(i) differs from the wanted value; (P1) Set/SetBytes write the constant true and Unset/UnsetBytes false, the mask variants only behind the test of the mask argument's bit i; (G2) the mask argument is indexed only behind len(bs) == len(bv.b); (P2) Bytes/Len return the fields; (Y2) padding independence: a backing byte is compared without a mask only at an index proven < bv.len/8. Not decided: arithmetic of New's byte count; that the composition of these clauses is the boolean-array semantics is argued in DESIGN, not computed.",
 	}, c39)
 }
 
@@ -112,4 +112,5 @@ func c39(r *core.Run) {
 		r.Check("C39.G1", core.Key("C39.G1", fn, "construct behind len(b)*8>=l"), a.Pos(), core.OnlyBehind(fn, a, fits),
 			"a vector is constructed only when the byte slice holds l bits", "a path constructs a vector without the len(b)*8<l refusal")
 	}
+	c39more(r)
 }
